@@ -667,7 +667,12 @@ func runRegex(spec *RegexSpec, tier, id string) *RegexResult {
 		res.Inconcl = append(res.Inconcl, in)
 	}
 	// run every witness through the real Scrub
-	outsN, nerr := nativeScrub(witnessInputs)
+	single := map[int]bool{}
+	base := len(witnessInputs) - len(gen.lines)
+	for _, i := range gen.single {
+		single[base+i] = true
+	}
+	outsN, nerr := nativeScrub(witnessInputs, single, res.Patterns["placeholder"])
 	if nerr != nil {
 		res.Inconcl = append(res.Inconcl, "native Scrub run failed: "+nerr.Error())
 		return res
@@ -693,6 +698,7 @@ func runRegex(spec *RegexSpec, tier, id string) *RegexResult {
 
 type genResult struct {
 	lines   []string
+	single  []int // indexes of the single-address lines "up <address> zz"
 	queries int
 	inconcl []string
 }
@@ -752,6 +758,37 @@ func generateWitnessLines(defs string, fams []refFamily, tier string) genResult 
 		}
 		g.inconcl = append(g.inconcl, "no witness line generated for "+qs[i].name)
 	}
+	// single-address lines, several different members per family: the whole address must be
+	// replaced - no fragment of it may survive (a match that covers only a prefix of the
+	// address satisfies the language-inclusion query F1 but still leaks the rest)
+	for _, f := range fams {
+		fam := "ref_" + strings.ReplaceAll(f.name, "-", "_")
+		prev := []string{}
+		for k := 0; k < 3; k++ {
+			script := defs + "(assert (str.in_re T " + reConcat("(str.to_re \"up \")", fam, "(str.to_re \" zz\")") + "))\n"
+			for _, p := range prev {
+				script += "(assert (not (= T \"" + smtEsc(p) + "\")))\n"
+			}
+			if k > 0 {
+				script += fmt.Sprintf("(assert (> (str.len T) %d))\n", len(prev[len(prev)-1]))
+			}
+			a := runRegexQuery(script, 30, true)
+			g.queries++
+			if a.res != "sat" {
+				break
+			}
+			w, ok := decodeSMTString(a.model)
+			if !ok {
+				break
+			}
+			prev = append(prev, w)
+			g.lines = append(g.lines, w)
+			g.single = append(g.single, len(g.lines)-1)
+		}
+		if len(prev) == 0 {
+			g.inconcl = append(g.inconcl, "no single-address witness generated for "+f.name)
+		}
+	}
 	// a few fixed shapes the solver's minimal models tend to miss (same address twice, tab
 	// separated, one per line in one buffer)
 	g.lines = append(g.lines, "a 1.2.3.4 5.6.7.8 b\n", "1.2.3.4\n5.6.7.8\n", "[1::2]:80 [3::4]:443\n", "x=1.2.3.4,y=5.6.7.8\n")
@@ -770,6 +807,7 @@ import (
 	"encoding/json"
 	"os"
 	"regexp"
+	"strings"
 	"testing"
 )
 
@@ -779,9 +817,11 @@ func TestVerifScrubWitnesses(t *testing.T) {
 		t.Fatal(err)
 	}
 	var in struct {
-		Lines    []string
-		Ref      string
-		Families map[string]string
+		Lines       []string
+		Ref         string
+		Families    map[string]string
+		Single      []int
+		Placeholder string
 	}
 	if err := json.Unmarshal(b, &in); err != nil {
 		t.Fatal(err)
@@ -808,13 +848,26 @@ func TestVerifScrubWitnesses(t *testing.T) {
 		}
 		outs = append(outs, r)
 	}
+	// single-address lines "up <address> zz": once the placeholder is taken out, nothing of the
+	// address alphabet may be left between the two words
+	frag := regexp.MustCompile("[0-9A-Fa-f:.\\[\\]]")
+	for _, i := range in.Single {
+		o := outs[i].Output
+		if in.Placeholder != "" {
+			o = strings.ReplaceAll(o, in.Placeholder, "")
+		}
+		if outs[i].Survivor == "" && frag.MatchString(o) {
+			outs[i].Survivor = "fragment: " + o
+			outs[i].Family = "address only partly replaced"
+		}
+	}
 	ob, _ := json.Marshal(outs)
 	os.WriteFile(os.Getenv("VERIF_SCRUB_OUT"), ob, 0644)
 }
 `
 
 // nativeScrub runs the witness lines through the real safelog.Scrub (go test -overlay).
-func nativeScrub(lines []string) ([]scrubOut, error) {
+func nativeScrub(lines []string, single map[int]bool, placeholder string) ([]scrubOut, error) {
 	tmp, err := os.MkdirTemp("", "verif-scrub-")
 	if err != nil {
 		return nil, err
@@ -824,7 +877,13 @@ func nativeScrub(lines []string) ([]scrubOut, error) {
 	for _, f := range refFamilies() {
 		fams[f.name] = f.pat
 	}
-	in := map[string]interface{}{"Lines": lines, "Ref": allReferenceGo(), "Families": fams}
+	var singles []int
+	for i := range lines {
+		if single[i] {
+			singles = append(singles, i)
+		}
+	}
+	in := map[string]interface{}{"Lines": lines, "Ref": allReferenceGo(), "Families": fams, "Single": singles, "Placeholder": placeholder}
 	ib, _ := json.Marshal(in)
 	inF, outF := filepath.Join(tmp, "in.json"), filepath.Join(tmp, "out.json")
 	os.WriteFile(inF, ib, 0644)
